@@ -500,6 +500,8 @@ def expand (s : Sys) (built : Bool) (fields : List String) : Option (List SysOp 
   | "D" :: dep :: text :: _ => some ([.call .create (parseDep text dep)], built)             -- Dtype(...): dtypes.py:323-337
   | "N" :: dep :: text :: _ => some ([.call .create (parseDep text dep)], built)             -- cls(name=value), a.name = value,
                                                                                              -- pack(name, value), Dtype.build: Dtype(name, length)
+  | "E" :: dep :: _ :: _ :: text :: _ => some ([.call .create (parseDep text dep)], built)   -- Dtype(argB), compared with an
+                                                                                             -- earlier Dtype object
   | "A" :: dep :: text :: _ =>
     -- Array(Dtype(name, scale='auto'), values): the table is built on first use (array_.py:98-112)
     let pre := if built then [] else largestValuesLiterals.map fun t => SysOp.call .strToBitstore (plainCall t)
